@@ -27,6 +27,7 @@ class Compiler:
         self.next_local_symbol_prefix = 1
         self.next_internal_symbol_prefix = 1
         self.times_file_compiled = collections.defaultdict(int)
+        self.include_depth = 0
         self.internal_prefix_to_state = {}
         self._verif_trace = [] if _VERIF else None
 
@@ -330,9 +331,11 @@ class Compiler:
             "set_where": None
         }
 
+        self.include_depth += 1
         try:
             code = self.compile_file(file, link_base["promise"], link_base)
         finally:
+            self.include_depth -= 1
             # Also when an error aborts the included file half way: symbols it
             # has defined so far are expressed in terms of this promise
             if not link_base["promise"].settled:
